@@ -274,6 +274,15 @@ package placement
 // Initialize / loadRules: the loader treats every key that is already in the configuration as a duplicate and DELETES its
 // stored record, so it must start from an empty configuration - also when an earlier Initialize on the same manager failed
 // half-way (Server.SetReplicationConfig retries on the same manager).
+// The public entry points used by the server's replication-config setter (trusted at this level: they funnel into
+// tryCommitPatch; GetRule hands out the served rule object).
+//@ func (*RuleManager).SetRule
+//@   assumed
+//@   modifies all RuleManager.ruleList, all RuleManager.ruleConfig, all ruleConfig.rules, all ruleConfig.groups, all Rule.group, all Rule.StartKey, all Rule.EndKey, all Rule.GroupID, ghost kvhas, ghost kvval, ghost ruleWriteFailed, ghost evres
+//@ func (*RuleManager).GetRule
+//@   assumed
+//@   ensures result == nil || allocated(result)
+//@   modifies nothing
 //@ func (*RuleManager).loadRules
 //@   assumed
 //@   requires [loads-into-an-empty-configuration] m.ruleConfig != nil && m.ruleConfig.rules != nil && len(m.ruleConfig.rules) == 0
@@ -283,7 +292,6 @@ package placement
 //@   modifies *
 //@ func (*RuleManager).Initialize
 //@   props C13
-//@   requires m != nil && m.storage != nil
 //@   option nosafety
 //@   modifies *
 
